@@ -1,5 +1,6 @@
 import Driver.Framing
 import Driver.C03Prod
+import Driver.C03Wire
 namespace DriverC03
 open Proto Framing DriverFraming
 
@@ -120,6 +121,10 @@ def handle (case obs : List String) : String × String :=
   | "resp" :: _ => (String.intercalate " " obs, handleResp case obs)
   | "req" :: _ => (String.intercalate " " obs, handleReq case obs)
   | "prod" :: _ => DriverC03Prod.handle case obs
+  | "wresp" :: _ => DriverC03Wire.handle case obs
+  | "wreq" :: _ => DriverC03Wire.handle case obs
+  | "wsrv" :: _ => DriverC03Wire.handle case obs
+  | "wcli" :: _ => DriverC03Wire.handle case obs
   | _ =>
   match parseEncCase case with
   | some c =>
